@@ -170,8 +170,58 @@ def end_to_end(shard, nshards, payload):
     return t
 
 
+CLI_COLOURS = ["#ffffff", "#000", "#80123abc", "red", "lightgoldenrodyellow", "#12345"]     # the last is not a colour
+
+
+def cli_histories(shard, nshards, payload):
+    """Every history of <= 3 edits of one colour literal, regenerated by the real command in one directory after
+    each edit: the file on disk carries the colour of the last accepted edit, nothing of earlier ones."""
+    import itertools
+    import os
+    table = payload["table"]
+    t = vc.Tally()
+    hists = [h for n in (1, 2, 3) for h in itertools.product(CLI_COLOURS, repeat=n)]
+    with vc.scratch_dir("c19cli") as scratch:
+        for k, hist in enumerate(hists):
+            if k % nshards != shard:
+                continue
+            d = os.path.join(scratch, f"h{k}")
+            os.makedirs(d)
+            last = None
+            for step, s in enumerate(hist):
+                src = f"import qmluic.QtWidgets\nQColorDialog {{ currentColor: {qml_str(s)} }}\n"
+                with open(os.path.join(d, "Pick.qml"), "w") as f:
+                    f.write(src)
+                p_ = subprocess.run([vc.QMLUIC_BIN, "generate-ui", "--foreign-types", vc.METATYPES, "Pick.qml"], cwd=d,
+                                    stdout=subprocess.PIPE, stderr=subprocess.PIPE, timeout=60)
+                t.inc("cli_runs")
+                case = {"kind": "cli", "history": list(hist), "step": step, "string": s, "sink": "color", "source": src}
+                exp = expected(s, table)
+                if (p_.returncode == 0) != (exp is not None):
+                    t.violation("cli:exit-status-differs-from-the-colour's-validity", dict(case, exit=p_.returncode))
+                    break
+                if exp is not None:
+                    last = exp
+                path = os.path.join(d, "pick.ui")
+                if last is None:
+                    if os.path.exists(path):
+                        t.violation("cli:file-written-for-a-rejected-colour", case)
+                    continue
+                try:
+                    got = read_color(uiread.prop(uiread.parse(open(path).read()).find("widget"), "currentColor").children[0])
+                except Exception as e:  # noqa
+                    t.violation("cli:malformed-colour-element-after-regeneration", dict(case, error=str(e)))
+                    break
+                if tuple(got) != tuple(last):
+                    t.violation("cli:file-does-not-carry-the-last-accepted-colour", dict(case, expected=last, got=got))
+                    break
+            t.distinct.add(("cli",) + hist)
+    return t
+
+
 def main(tier, t0):
     vc.ensure_vdrive()
+    vc.ensure_cli()
     table = json.load(open(TABLE))
     agree, bad, src = crosscheck_table(table)
     if bad:
@@ -214,6 +264,7 @@ def main(tier, t0):
             strings += [("#" + d * 3, "color"), ("#" + d * 4, "brush")]
     rs = vc.run_sharded(end_to_end, {"table": table, "strings": strings})
     tally.merge(vc.merge_tallies(rs))
+    tally.merge(vc.merge_tallies(vc.run_sharded(cli_histories, {"table": table})))
     total = sum(c["evaluated"] for c in out["classes"].values()) + len(strings)
     # distinct non-trivial: every enumerated string is distinct by construction; count classes
     # in which both verdicts or a large value range occurred
@@ -228,6 +279,7 @@ def main(tier, t0):
         "exhaustive": True,
         "classes": out["classes"],
         "e2e_documents": len(strings),
+        "cli_edit_histories": {"colours": CLI_COLOURS, "max_edits": 3, "runs_of_the_real_command": tally.counts.get("cli_runs", 0)},
         "e2e_counts": dict(tally.counts),
         "keyword_table": {"size": len(table), "agrees_with_rgb_txt_on": agree, "rgb_txt": src},
         "samples": (tally.samples[:4] + [{"class": k, **v} for k, v in list(out["classes"].items())[:2]]),
@@ -246,6 +298,21 @@ def replay(path):
     table = json.load(open(TABLE))
     r = json.load(open(path))
     case = r["case"]
+    if case.get("kind") == "cli":
+        vc.ensure_cli()
+        global CLI_COLOURS
+        hist = tuple(case["history"])
+        import itertools
+        # replay exactly this history: find it in the enumeration
+        hists = [h for n in (1, 2, 3) for h in itertools.product(CLI_COLOURS, repeat=n)]
+        k = hists.index(hist)
+        t = cli_histories(k, len(hists), {"table": table})
+        if t.violations:
+            print(f"VIOLATION property=C19 replay={path}")
+            print("  ", t.violations[0][0])
+            return 1
+        print("replay: holds now")
+        return 0
     if case.get("kind") == "e2e":
         t = end_to_end(0, 1, {"table": table, "strings": [(case["string"], case["sink"])]})
         vc._worker_vd and vc._worker_vd.close()
